@@ -52,7 +52,7 @@ fn leak<T: Clone>(v: &[T]) -> &'static [T] {
 
 impl DpApp {
     pub fn new(cfg: &DpCfg) -> Self {
-        let mut master = match cfg.slots {
+        let master = match cfg.slots {
             None => DpMaster::new(Vec::new()),
             Some(n) => {
                 let storage: Vec<PeripheralStorage<'static>> = (0..n).map(|_| PeripheralStorage::default()).collect();
@@ -60,36 +60,47 @@ impl DpApp {
                 DpMaster::new(storage)
             }
         };
-        let mut handles = Vec::new();
-        let mut shadow_q = Vec::new();
-        let mut addrs = Vec::new();
-        for p in &cfg.peripherals {
-            let options = PeripheralOptions {
-                ident_number: p.ident,
-                sync_mode: p.sync,
-                freeze_mode: p.freeze,
-                groups: p.groups,
-                max_tsdr: p.max_tsdr,
-                fail_safe: p.fail_safe,
-                user_parameters: p.user_prm.as_ref().map(|v| leak(v)),
-                config: p.config.as_ref().map(|v| leak(v)),
-            };
-            let mut per = Peripheral::new(p.addr, options, vec![0u8; p.in_len], vec![0u8; p.out_len]);
-            if p.diag_buf > 0 {
-                per = per.with_diag_buffer(vec![0u8; p.diag_buf]);
-            }
-            handles.push(master.add(per));
-            shadow_q.push(vec![0u8; p.out_len]);
-            addrs.push(p.addr);
-        }
-        DpApp {
+        let mut app = DpApp {
             master,
-            handles,
+            handles: Vec::new(),
             cfg: cfg.clone(),
-            shadow_q,
+            shadow_q: Vec::new(),
             operate: false,
-            addrs,
+            addrs: Vec::new(),
+        };
+        while app.handles.len() < cfg.peripherals.len() && cfg.peripherals[app.handles.len()].add_at_us == 0 {
+            app.add_next();
         }
+        app
+    }
+
+    /// `DpMaster::add()` for the next peripheral of the list that is not in the set yet.
+    pub fn add_next(&mut self) -> Option<usize> {
+        let k = self.handles.len();
+        let p = self.cfg.peripherals.get(k)?.clone();
+        let options = PeripheralOptions {
+            ident_number: p.ident,
+            sync_mode: p.sync,
+            freeze_mode: p.freeze,
+            groups: p.groups,
+            max_tsdr: p.max_tsdr,
+            fail_safe: p.fail_safe,
+            user_parameters: p.user_prm.as_ref().map(|v| leak(v)),
+            config: p.config.as_ref().map(|v| leak(v)),
+        };
+        let mut per = Peripheral::new(p.addr, options, vec![0u8; p.in_len], vec![0u8; p.out_len]);
+        if p.diag_buf > 0 {
+            per = per.with_diag_buffer(vec![0u8; p.diag_buf]);
+        }
+        self.handles.push(self.master.add(per));
+        self.shadow_q.push(vec![0u8; p.out_len]);
+        self.addrs.push(p.addr);
+        Some(k)
+    }
+
+    /// Time at which the user process adds the next peripheral, if one is still to be added.
+    pub fn next_add_at(&self) -> Option<u64> {
+        self.cfg.peripherals.get(self.handles.len()).map(|p| p.add_at_us)
     }
 
     pub fn index_of_addr(&self, addr: u8) -> Option<usize> {
@@ -104,6 +115,8 @@ pub enum UserAct {
     WriteQ { app: usize, periph: usize },
     RequestDiag { app: usize, periph: usize },
     ResetAddress { app: usize, periph: usize, addr: u8, inflight: bool },
+    /// `DpMaster::add()` while the bus runs.
+    AddPeripheral { app: usize, periph: usize },
 }
 
 pub struct TrafficApp {
